@@ -48,7 +48,12 @@ class World:
         # (a NUL byte in code that a .p8.png stores raw is cut there: open known finding C04:raw-code-with-nul, not this property's subject)
         code = code.replace(b'\x00', b'\x01')
         label = U.rand_bytes(rng, 0x2000, 'uniform') if (with_label and ext == '.p8') else None
-        g = U.make_game(rng=rng, code=code, version=8, label=label)
+        try:
+            g = U.make_game(rng=rng, code=code, version=8, label=label)
+        except Exception:
+            # (the small code generator can, rarely, produce text the lexer refuses: not a case for this property)
+            code = b'-- cart %d\nx=%d\n' % (self.n, self.n)
+            g = U.make_game(rng=rng, code=code, version=8, label=label)
         self.gfile.to_file(g, path)
         return path
 
